@@ -72,6 +72,19 @@ CLAIMED = {
         "note": "Structural clause only: the flattened values, the interpolated closing temperature, tolerance side and range end points are numeric and NOT decided. "
                 "Trusted: numpy view semantics; ProblemTable methods that assign self.data are the only buffer-replacing operations (derived on every run).",
     },
+    "C14": {
+        "category": "other",
+        "technique": "static analysis: must-define-before-use of the per-zone target registry by symbolic exploration of the zone-type handlers over all option-flag "
+                     "assignments and child zone types (greatest fix-point for recursive handlers), requirements derived from the entry functions' own bodies; "
+                     "typed attribute-existence check on Configuration; handler-table exhaustiveness and label-form agreement",
+        "text": "Decides three totality clauses of C14 for all option combinations and zone trees: (ORDER) no path through the handlers reads a target record before it was "
+                "stored; (ATTR) every option attribute the pipeline reads exists on Configuration; (T4) every root zone type that preparation produces has a handler keyed in "
+                "the form the lookup uses, and zone identifiers are only compared with the text form. Six genuine violations of the pinned tree are recorded as known findings "
+                "(reproduced by findings/C14_repro.py); any other violation is reported.",
+        "design_ref": "DESIGN.md 3.2 ORDER, ATTR, TABLE T4",
+        "note": "Finite numbers, schema validity of the output, JSON serialisability, temperature envelopes and the numeric DO_AREA_TARGETING failure are NOT decided. "
+                "Options are modelled as free booleans; handler bodies must stay within the statement forms the explorer understands (else ANALYSIS-ERROR).",
+    },
 }
 
 _NOT_BUILT = "claimed in DESIGN.md but the check is not built yet in this round"
